@@ -38,6 +38,15 @@ def run(tier, seed, res, lean):
     col_bad = [b for o in col for b in o[1]]
     for b in col_bad[:4]:
         res.violations.append(Violation('c04-columns', b['msg'][:400], {'suite': 'S-COL', **b}))
+    # S-STOP: a field that raises StopIteration below a column cache / a plain pipeline
+    from .. import suite_stop
+    for kind in ('columns', 'plain'):
+        stop = suite_stop.run(kind)
+        for p_ in [x for x in stop if x['severity'] != 'class-changed'][:2]:
+            res.violations.append(Violation('c04-stopiteration', p_['msg'][:400], {'suite': 'S-STOP', **p_}))
+        for p_ in [x for x in stop if x['severity'] == 'class-changed'][:1]:
+            res.violations.append(Violation('c04-stopiteration-class', p_['msg'][:400], {
+                'suite': 'S-STOP', 'signature': {'site': 'CachedColumn.evaluate', 'class': 'StopIteration -> RuntimeError'}, **p_}))
     if model_bad and not c04_bad:
         res.violations.append(Violation(
             'c04-correspondence', 'the real pipeline and the Lean VM (on the extracted graph) disagree on a cached history; '
@@ -57,6 +66,11 @@ def run(tier, seed, res, lean):
             'hypotheses_hold': stats['thm_instances'], 'of_which_served_from_cache': stats['thm_hits'],
             'hypotheses_fail (RAM stores / Silent / CheckIds)': stats['thm_hyp_false'], 'contradicted': stats['thm_contradicted']},
     })
+
+
+def witness_f12():
+    from .. import suite_stop
+    return any(p['severity'] == 'class-changed' for p in suite_stop.run('columns'))
 
 
 def replay(obj, kind):
